@@ -164,10 +164,20 @@ Proof.
   split; [apply H1; exact Hx|apply memn_In; apply H2; exact Hx].
 Qed.
 
+Lemma import_vals_shape : forall s0 c s4,
+  com s4 = com s0 /\ subs (pen s4) = subs (pen s0) /\ jobs s4 = jobs s0 /\ reg s4 = reg s0 /\ alive s4 = alive s0 ->
+  com (import_vals s4 c) = com s0 /\ subs (pen (import_vals s4 c)) = subs (pen s0) /\
+  jobs (import_vals s4 c) = jobs s0 /\ reg (import_vals s4 c) = reg s0 /\ alive (import_vals s4 c) = alive s0.
+Proof.
+  intros s0 c. unfold import_vals. generalize (t_res c :: t_task c :: t_args c). intros l.
+  induction l as [|v l IH]; intros s4 H4; cbn [fold_left]; [exact H4|].
+  apply IH. destruct (memn v (vals (vis s4))); [exact H4|simpl; exact H4].
+Qed.
+
 Lemma import_one_shape : forall s c, com (import_one s c) = com s /\ subs (pen (import_one s c)) = subs (pen s) /\
   jobs (import_one s c) = jobs s /\ reg (import_one s c) = reg s /\ alive (import_one s c) = alive s.
 Proof.
-  intros s c. unfold import_one. destruct (memt c (nodes (vis s))); [auto|].
+  intros s c. unfold import_one. destruct (memt c (nodes (vis s))); [apply import_vals_shape; auto|].
   set (s2 := add_edges _ (add_node c s)).
   assert (H2 : com s2 = com s /\ subs (pen s2) = subs (pen s) /\ jobs s2 = jobs s /\ reg s2 = reg s /\ alive s2 = alive s)
     by (subst s2; simpl; auto).
@@ -178,11 +188,7 @@ Proof.
      com s4 = com s /\ subs (pen s4) = subs (pen s) /\ jobs s4 = jobs s /\ reg s4 = reg s /\ alive s4 = alive s).
   { induction vs as [|v vs IH]; intros i s3 H3; simpl; [exact H3|]. apply IH. simpl. exact H3. }
   specialize (Hargs (t_args c) 0 s2 H2). simpl in Hargs.
-  set (s4 := (fix go (i : nat) (vs : list nat) (s : state) {struct vs} : state := _) 0 (t_args c) s2) in *.
-  clearbody s4.
-  generalize (t_res c :: t_task c :: t_args c). intros l. revert s4 Hargs.
-  induction l as [|v l IH]; intros s4 H4; cbn [fold_left]; [exact H4|].
-  apply IH. destruct (memn v (vals (vis s4))); [exact H4|simpl; exact H4].
+  apply import_vals_shape. exact Hargs.
 Qed.
 
 Lemma import_fold_shape : forall l s, let s' := fold_left import_one l s in
